@@ -585,9 +585,10 @@ void BSTriShape::Sync(NiStreamReversible& stream) {
 			particleNorms.resize(numVertices);
 			particleTris.resize(numTriangles);
 
-			// The arrays in the file are sized by the counts stored in this block, which are
-			// written as zero for skinned shapes (their data is in the skin partition instead)
-			const uint16_t particleVertCount = syncVertexData ? numVertices : 0;
+			// The arrays in the file are sized by the counts stored in this block. For skinned shapes
+			// (their data is in the skin partition instead) the triangle count is written as zero,
+			// and so is the vertex count unless the shape is a BSDynamicTriShape
+			const uint16_t particleVertCount = (syncVertexData || HasType<BSDynamicTriShape>()) ? numVertices : 0;
 			const uint32_t particleTriCount = syncVertexData ? numTriangles : 0;
 
 			for (uint16_t i = 0; i < particleVertCount; i++) {
